@@ -20,40 +20,28 @@ Theorem c17_insert_comment :
       = renum_m (shift (length l1)) (parse_merchants pyparse (l1 ++ l2)) /\
     parse_views pyparse (l1 ++ (w ++ String "#" t)%string :: l2)
       = renum_v (shift (length l1)) (parse_views pyparse (l1 ++ l2)).
-Proof.
-  intros pyparse l1 w t l2 H. split.
-  - exact (m_insert_skip pyparse l1 _ l2 (classify_m_comment w t H)).
-  - exact (v_insert_skip pyparse l1 _ l2 (classify_v_comment w t H)).
-Qed.
+Proof. exact c17_insert_comment_holds. Qed.
 Print Assumptions c17_insert_comment.
 
 Theorem c17_insert_blank :
   forall pyparse l1 c l2, all_ws c = true ->
     parse_merchants pyparse (l1 ++ c :: l2) = renum_m (shift (length l1)) (parse_merchants pyparse (l1 ++ l2)) /\
     parse_views pyparse (l1 ++ c :: l2) = renum_v (shift (length l1)) (parse_views pyparse (l1 ++ l2)).
-Proof.
-  intros pyparse l1 c l2 H. split.
-  - exact (m_insert_skip pyparse l1 _ l2 (classify_m_blank c H)).
-  - exact (v_insert_skip pyparse l1 _ l2 (classify_v_blank c H)).
-Qed.
+Proof. exact c17_insert_blank_holds. Qed.
 Print Assumptions c17_insert_blank.
 
 Theorem c17_trailing_blanks :
   forall pyparse l1 l w l2, all_ws w = true ->
     parse_merchants pyparse (l1 ++ (l ++ w)%string :: l2) = parse_merchants pyparse (l1 ++ l :: l2) /\
     parse_views pyparse (l1 ++ (l ++ w)%string :: l2) = parse_views pyparse (l1 ++ l :: l2).
-Proof.
-  intros pyparse l1 l w l2 H. split; [exact (m_trailing_blanks pyparse l1 l w l2 H)|exact (v_trailing_blanks pyparse l1 l w l2 H)].
-Qed.
+Proof. exact c17_trailing_blanks_holds. Qed.
 Print Assumptions c17_trailing_blanks.
 
 (* CR LF line ends: every line, or any subset of the lines (e.g. all but an unterminated last line) *)
 Theorem c17_crlf :
   forall pyparse ls ls', Forall2 (fun a b => a = b \/ a = add_cr b) ls ls' ->
     parse_merchants pyparse ls = parse_merchants pyparse ls' /\ parse_views pyparse ls = parse_views pyparse ls'.
-Proof.
-  intros pyparse ls ls' H. split; [exact (m_crlf_some pyparse ls ls' H)|exact (v_crlf_some pyparse ls ls' H)].
-Qed.
+Proof. exact c17_crlf_holds. Qed.
 Print Assumptions c17_crlf.
 
 (* any change of the leading blanks of a line. Merchants files: every line (property lines, variables,
@@ -64,20 +52,14 @@ Theorem c17_reindent_property :
     parse_merchants pyparse (l1 ++ (w ++ l)%string :: l2) = parse_merchants pyparse (l1 ++ l :: l2) /\
     (first_is "[" (strip l) = false ->
      parse_views pyparse (l1 ++ (w ++ l)%string :: l2) = parse_views pyparse (l1 ++ l :: l2)).
-Proof.
-  intros pyparse l1 l w l2 H. split; [exact (m_reindent pyparse l1 l w l2 H)|exact (v_reindent pyparse l1 l w l2 H)].
-Qed.
+Proof. exact c17_reindent_property_holds. Qed.
 Print Assumptions c17_reindent_property.
 
 Theorem c17_reindent_header :
   forall pyparse l1 l w l2 name, all_ws w = true -> classify_m l = Header name ->
     classify_m (w ++ l)%string = Header name /\
     parse_merchants pyparse (l1 ++ (w ++ l)%string :: l2) = parse_merchants pyparse (l1 ++ l :: l2).
-Proof.
-  intros pyparse l1 l w l2 name H Hh. split.
-  - rewrite <- Hh. apply classify_m_strip. now apply strip_app_ws_l.
-  - exact (m_reindent pyparse l1 l w l2 H).
-Qed.
+Proof. exact c17_reindent_header_holds. Qed.
 Print Assumptions c17_reindent_header.
 
 (* the key of a property line of a section written in any letter case *)
@@ -99,9 +81,7 @@ Theorem c17_permute_distinct_properties :
        sim (parse_merchants pyparse (l1 ++ block ++ l2)) (parse_merchants pyparse (l1 ++ block' ++ l2))) /\
     (forall l1 l2, in_section_v l1 = true -> Forall is_content_line_v block -> NoDup (map vk block) ->
        sim (parse_views pyparse (l1 ++ block ++ l2)) (parse_views pyparse (l1 ++ block' ++ l2))).
-Proof.
-  intros pyparse block block' H. split; [exact (m_permute_distinct pyparse block block' H)|exact (v_permute_distinct pyparse block block' H)].
-Qed.
+Proof. exact c17_permute_distinct_properties_holds. Qed.
 Print Assumptions c17_permute_distinct_properties.
 
 (* all of it at once: files related by any chain of layout edits (in either direction) have the same
@@ -110,7 +90,7 @@ Theorem c17_layout_insensitive :
   forall pyparse,
     (forall a b, clos_refl_sym_trans _ layout_edit_m a b -> same_outcome_m pyparse a b) /\
     (forall a b, clos_refl_sym_trans _ layout_edit_v a b -> same_outcome_v pyparse a b).
-Proof. intros pyparse. split; [exact (layout_insensitive_m pyparse)|exact (layout_insensitive_v pyparse)]. Qed.
+Proof. exact c17_layout_insensitive_holds. Qed.
 Print Assumptions c17_layout_insensitive.
 
 (* ============================ one rule / view per section =================================== *)
@@ -122,7 +102,7 @@ Theorem c17_one_rule_per_section :
        map (fun r => (r_line r, r_name r)) (m_rules f) = headers classify_m ls) /\
     (forall f, parse_views pyparse ls = Ok f ->
        map (fun v => (v_line v, v_name v)) (f_views f) = headers classify_v ls).
-Proof. intros pyparse ls. split; [exact (m_one_rule_per_section pyparse ls)|exact (v_one_view_per_section pyparse ls)]. Qed.
+Proof. exact c17_one_rule_per_section_holds. Qed.
 Print Assumptions c17_one_rule_per_section.
 
 (* exactly the stated properties: each rule is determined by the lines of its own section alone — for a
@@ -145,11 +125,7 @@ Theorem c17_exactly_stated_properties :
       pyparse (r_match r) = true /\ forallb (fun b => pyparse (snd b)) (r_lets r) = true /\
       forallb (fun b => pyparse (snd b)) (r_fields r) = true)
     (sections_m ls) (m_rules f).
-Proof.
-  intros pyparse ls f H. apply parse_m_sections in H.
-  induction H as [|[[n0 name] ps] r secs rules Hb _ IH]; constructor; [|exact IH].
-  exact (build_rule_spec pyparse n0 name ps r Hb).
-Qed.
+Proof. exact c17_exactly_stated_properties_holds. Qed.
 Print Assumptions c17_exactly_stated_properties.
 
 Theorem c17_exactly_stated_properties_views :
@@ -162,11 +138,7 @@ Theorem c17_exactly_stated_properties_views :
       v_vars v = dict_of [] (vars_of (vitems lines)) /\
       Forall (fun p => vline_check pyparse (snd p) = None) lines)
     (sections_v ls) (f_views f).
-Proof.
-  intros pyparse ls f H. apply parse_v_sections in H.
-  induction H as [|[[n0 name] ps] r secs rules Hb _ IH]; constructor; [|exact IH].
-  exact (build_view_spec pyparse n0 name ps r Hb).
-Qed.
+Proof. exact c17_exactly_stated_properties_views_holds. Qed.
 Print Assumptions c17_exactly_stated_properties_views.
 
 (* ============================ rejection ===================================================== *)
@@ -179,9 +151,7 @@ Theorem c17_reject_missing_match :
        is_ok (parse_merchants pyparse ls) = false) /\
     (forall n, parse_merchants pyparse ls = Err n EMissingMatch ->
        exists name ps, In (n, name, ps) (sections_m ls) /\ last_of KMatch (kvs ps) = None).
-Proof.
-  intros pyparse ls. split; [exact (m_reject_missing_match pyparse ls)|exact (m_missing_match_names_section pyparse ls)].
-Qed.
+Proof. exact c17_reject_missing_match_holds. Qed.
 Print Assumptions c17_reject_missing_match.
 
 Theorem c17_reject_unknown_property :
@@ -190,12 +160,7 @@ Theorem c17_reject_unknown_property :
        prop_of s = Some (k, v) -> key_of k = KUnknown -> is_ok (parse_merchants pyparse ls) = false) /\
     (forall n, parse_merchants pyparse ls = Err n EUnknownProperty ->
        exists n0 name ps s, In (n0, name, ps) (sections_m ls) /\ In (n, s) ps /\ prop_check s = Some EUnknownProperty).
-Proof.
-  intros pyparse ls. split.
-  - intros n0 name ps n s k v Hs Hin P K. apply (m_reject_bad_line pyparse ls n0 name ps n s EUnknownProperty Hs Hin).
-    unfold prop_check. now rewrite P, K.
-  - intros n. apply m_line_error_names_line. auto.
-Qed.
+Proof. exact c17_reject_unknown_property_holds. Qed.
 Print Assumptions c17_reject_unknown_property.
 
 Theorem c17_reject_bad_let :
@@ -204,12 +169,7 @@ Theorem c17_reject_bad_let :
        prop_of s = Some (k, v) -> key_of k = KLet -> ident_eq v = None -> is_ok (parse_merchants pyparse ls) = false) /\
     (forall n, parse_merchants pyparse ls = Err n EBadLet ->
        exists n0 name ps s, In (n0, name, ps) (sections_m ls) /\ In (n, s) ps /\ prop_check s = Some EBadLet).
-Proof.
-  intros pyparse ls. split.
-  - intros n0 name ps n s k v Hs Hin P K I. apply (m_reject_bad_line pyparse ls n0 name ps n s EBadLet Hs Hin).
-    unfold prop_check. rewrite P, K. cbn. now rewrite I.
-  - intros n. apply m_line_error_names_line. auto.
-Qed.
+Proof. exact c17_reject_bad_let_holds. Qed.
 Print Assumptions c17_reject_bad_let.
 
 Theorem c17_reject_bad_field :
@@ -218,12 +178,7 @@ Theorem c17_reject_bad_field :
        prop_of s = Some (k, v) -> key_of k = KField -> ident_eq v = None -> is_ok (parse_merchants pyparse ls) = false) /\
     (forall n, parse_merchants pyparse ls = Err n EBadField ->
        exists n0 name ps s, In (n0, name, ps) (sections_m ls) /\ In (n, s) ps /\ prop_check s = Some EBadField).
-Proof.
-  intros pyparse ls. split.
-  - intros n0 name ps n s k v Hs Hin P K I. apply (m_reject_bad_line pyparse ls n0 name ps n s EBadField Hs Hin).
-    unfold prop_check. rewrite P, K. cbn. now rewrite I.
-  - intros n. apply m_line_error_names_line. auto.
-Qed.
+Proof. exact c17_reject_bad_field_holds. Qed.
 Print Assumptions c17_reject_bad_field.
 
 Theorem c17_reject_bad_priority :
@@ -232,12 +187,7 @@ Theorem c17_reject_bad_priority :
        prop_of s = Some (k, v) -> key_of k = KPriority -> parse_int v = None -> is_ok (parse_merchants pyparse ls) = false) /\
     (forall n, parse_merchants pyparse ls = Err n EBadPriority ->
        exists n0 name ps s, In (n0, name, ps) (sections_m ls) /\ In (n, s) ps /\ prop_check s = Some EBadPriority).
-Proof.
-  intros pyparse ls. split.
-  - intros n0 name ps n s k v Hs Hin P K I. apply (m_reject_bad_line pyparse ls n0 name ps n s EBadPriority Hs Hin).
-    unfold prop_check. rewrite P, K. cbn. now rewrite I.
-  - intros n. apply m_line_error_names_line. auto 6.
-Qed.
+Proof. exact c17_reject_bad_priority_holds. Qed.
 Print Assumptions c17_reject_bad_priority.
 
 (* Invalid expressions.  FULL statement: whatever expression of the file the oracle rejects, the file is
@@ -269,12 +219,7 @@ Theorem c17_reject_invalid_expression_partial :
     (* views files: every filter and every variable, global or local, is validated at its own line *)
     (forall n0 name lines n s k, In (n0, name, lines) (sections_v ls) -> In (n, s) lines ->
        vline_check pyparse s = Some k -> is_ok (parse_views pyparse ls) = false).
-Proof.
-  intros pyparse ls. split; [|split].
-  - intros sec e. exact (m_reject_invalid_section_expr pyparse ls sec e).
-  - exact (m_invalid_expr_names_section pyparse ls).
-  - exact (v_reject_bad_line pyparse ls).
-Qed.
+Proof. exact c17_reject_invalid_expression_partial_holds. Qed.
 Print Assumptions c17_reject_invalid_expression_partial.
 
 Theorem c17_reject_missing_filter :
@@ -283,9 +228,7 @@ Theorem c17_reject_missing_filter :
        is_ok (parse_views pyparse ls) = false) /\
     (forall n, parse_views pyparse ls = Err n VMissingFilter ->
        exists name lines, In (n, name, lines) (sections_v ls) /\ last_filter (vitems lines) = None).
-Proof.
-  intros pyparse ls. split; [exact (v_reject_missing_filter pyparse ls)|exact (v_missing_filter_names_section pyparse ls)].
-Qed.
+Proof. exact c17_reject_missing_filter_holds. Qed.
 Print Assumptions c17_reject_missing_filter.
 
 (* ============================ no silent drop ================================================ *)
@@ -314,9 +257,7 @@ Theorem c17_no_silent_drop_partial :
      parse_merchants pyparse (l1 ++ garbage :: l2) = Err (S (length l1)) EUnexpected) /\
     (is_ok (parse_views pyparse (l1 ++ l :: l2)) = true ->
      parse_views pyparse (l1 ++ garbage :: l2) = Err (S (length l1)) VUnexpected).
-Proof.
-  intros pyparse l1 l l2. split; [exact (m_garbage_in_section pyparse l1 l l2)|exact (v_garbage_anywhere pyparse l1 l l2)].
-Qed.
+Proof. exact c17_no_silent_drop_partial_holds. Qed.
 Print Assumptions c17_no_silent_drop_partial.
 
 (* ============================ command level ================================================= *)
@@ -343,12 +284,7 @@ Theorem c17_load_error_is_reported_partial :
        get_all_rules pyparse csv_rules ls = Loaded (csv_rules ls) /\ get_transforms pyparse ls = []) /\
     (* the views file IS reported: load_config turns SectionParseError into a warning entry *)
     (forall n k, parse_views pyparse ls = Err n k -> load_views pyparse ls = Reported n).
-Proof.
-  intros pyparse csv_rules ls. split; [|split].
-  - exact (get_all_rules_ok pyparse csv_rules ls).
-  - exact (get_all_rules_err pyparse csv_rules ls).
-  - exact (load_views_err pyparse ls).
-Qed.
+Proof. exact c17_load_error_is_reported_partial_holds. Qed.
 Print Assumptions c17_load_error_is_reported_partial.
 
 (* ============================ non-vacuity =================================================== *)
